@@ -160,6 +160,12 @@ func runSelftest(args []string) int {
 	expectViolation("plugin-unsorted", "Plugin", "Plugin.cfg", map[string]string{"VERIF_SORTED": "0", "VERIF_EXPORT": "0"}, false)
 	expectViolation("mem-alias", "Mem", "Mem.cfg", map[string]string{"VERIF_ALIAS": "1"}, false)
 	expectViolation("readers-caching", "Readers", "Readers.cfg", map[string]string{"VERIF_CACHING": "1"}, false)
+	// decoded keys interned in a package-level table: shared state between decodes, and a crash
+	expectViolation("decoders-intern", "Decoders", "Decoders.cfg", map[string]string{"VERIF_INTERN": "1"}, false)
+	expectViolation("decoders-intern-crash", "Decoders", "Decoders_crash.cfg", map[string]string{"VERIF_INTERN": "1"}, false)
+	// a view object that keeps the keys of its last Range: a write by a reader, and lost / repeated visits
+	expectViolation("readers-view-cache", "Readers", "Readers.cfg", map[string]string{"VERIF_CACHING": "0", "VERIF_VIEWCACHE": "1"}, false)
+	expectViolation("readers-view-cache-results", "Readers", "Readers_view.cfg", map[string]string{"VERIF_CACHING": "0", "VERIF_VIEWCACHE": "1"}, false)
 	expectViolation("rapidgen-enum-by-index", "RapidGen", "RapidGen.cfg", map[string]string{"VERIF_ENUMIDX": "1"}, false)
 	expectViolation("skip-lax-scanner", "MC_Parse", "MC_Parse.cfg", map[string]string{"VERIF_LAX": "1", "VERIF_MAXLEN": "3", "VERIF_EXPORT": "0"}, false)
 	expectViolation("timepb-pinned-borrow", "TimePB", "TimePB.cfg", map[string]string{"VERIF_BORROW": "pinned", "VERIF_EXPORT": "0"}, false)
